@@ -147,6 +147,36 @@ Definition gain_corr (N : nat) (sols : list sol) (targets : option (list Z)) : l
   | _ => map (fun d => map (gain_value rs tgs d) (seq 0 (n_chans rs))) (seq 0 N)
   end.
 
+(* ------------------------------------------------------------------ SPEC versions of B and G
+   The same computations with the DOCUMENTED decisions written out (no constant from the source): a bandpass is INVALID
+   beyond the outermost valid channel, a gain holds the nearest valid solution, and a gain solution counts only when it
+   is finite AND was derived on the target of the dump.  Proofs/CalInterpP.v shows model = spec (`*_is_spec`); the
+   correspondence compares the implementation with both. *)
+Definition spec_bandpass_corr_seg (cal_freqs data_freqs : list Q) (bp : list (option pv)) : list (option pv) :=
+  match valid_nodes cal_freqs bp with
+  | [] => map (fun _ => None) data_freqs
+  | ns => map (fun f => recip (cinterp Inval Inval ns f)) data_freqs
+  end.
+Definition spec_bandpass_corr (cal_freqs data_freqs : list Q) (segs : list (list (option pv))) :=
+  map (spec_bandpass_corr_seg cal_freqs data_freqs) segs.
+Definition spec_gain_node (targets : list Z) (tg : Z) (c : nat) (s : rsol) : option cnode :=
+  match nth c (snd s) None with
+  | Some v => if Z.eqb (target_at targets (fst s)) tg then Some (qn (fst s), v) else None
+  | None => None
+  end.
+Definition spec_gain_value (rs : list rsol) (targets : list Z) (d c : nat) : option pv :=
+  match fmap (spec_gain_node targets (target_at targets d) c) rs with
+  | [] => None
+  | ns => recip (cinterp Hold Hold ns (qn d))
+  end.
+Definition spec_gain_corr (N : nat) (sols : list sol) (targets : option (list Z)) : list (list (option pv)) :=
+  let rs := real_sols sols in
+  let tgs := match targets with Some t => t | None => repeat 0%Z N end in
+  match rs with
+  | [] => repeat [None] N
+  | _ => map (fun d => map (spec_gain_value rs tgs d) (seq 0 (n_chans rs))) (seq 0 N)
+  end.
+
 (* ------------------------------------------------------------------ flux calibration of G *)
 Definition flux_table := list (Z * option Q).     (* name id -> flux; None = NaN *)
 Fixpoint lookup_flux (tbl : flux_table) (name : Z) : option (option Q) :=
@@ -311,6 +341,12 @@ Definition wire_14 (x : sx) : sx :=
   | L [I 4; I n; sols; tg] =>
       let tgs := match tg with L [t] => Some (to_Zs t) | _ => None end in
       L (map sx_of_opvs (gain_corr (Z.to_nat n) (map sol_of_sx (to_list sols)) tgs))
+  | L [I 23; segs; cf; df] =>
+      L (map sx_of_opvs (spec_bandpass_corr (map q_of_sx (to_list cf)) (map q_of_sx (to_list df))
+                                            (map opvs_of_sx (to_list segs))))
+  | L [I 24; I n; sols; tg] =>
+      let tgs := match tg with L [t] => Some (to_Zs t) | _ => None end in
+      L (map sx_of_opvs (spec_gain_corr (Z.to_nat n) (map sol_of_sx (to_list sols)) tgs))
   | L [I 5; sols; names; measured; ov; rt] =>
       let names := map to_Zs (to_list names) in
       let tbl := merge_flux (ftable_of_sx measured) (match ov with L [o] => Some (ftable_of_sx o) | _ => None end) in
